@@ -49,7 +49,10 @@ EXERCISED = (
     "changed in place and sent again; the AirTouch object dropped while its air-conditioner "
     "objects are kept; zone names listed in any order and zone numbers with gaps; init() "
     "overlapping a shutdown() that has just started; heartbeat configurations built "
-    "positionally")
+    "positionally; a shutdown() cancelled half-way and called again; the log level changed at "
+    "run time, also between two segments of a frame; one callable registered on a zone and on "
+    "the AC owning it; status pushed by the console during the handshake; held commands that "
+    "expire during a long outage; long host names and serials in discovery answers")
 
 T = """You are helping to evaluate a verification harness by producing a *subtle, realistic regression* in a Python library.
 
